@@ -531,6 +531,7 @@ func TestWorker(t *testing.T) {
 		})
 		out.Yields = k.yieldsTotal
 		out.Switches = k.switches
+		out.CPUSettles, out.CPUNs, out.ClockReads = k.cpuSettles, k.cpuNs, k.clockReads
 		out.MapSites = map[string]plan.MapSiteStat{}
 		out.Fired = map[string]int{}
 		out.Probes = map[string]int{}
@@ -549,6 +550,15 @@ func TestWorker(t *testing.T) {
 			for _, f := range oo.Fired {
 				out.Fired[f]++
 			}
+		}
+		if k.cpuSettles > 0 {
+			out.Fired["clock:cpu-time-charged"] = int(k.cpuSettles)
+		}
+		if k.stallIdx > 0 {
+			out.Fired["clock:stall"] = k.stallIdx
+		}
+		if k.clockReads > 0 {
+			out.Probes["clock_reads_by_code_under_test"] = int(k.clockReads)
 		}
 		out.SnapSwitch = k.snapSw
 		out.ChildGates = k.gateEvents
